@@ -131,7 +131,9 @@ def check(ctx: Ctx, rep: Report):
         for n in init.node.body:
             for attr, value, kind in self_store(n):
                 if attr == "_settings":
-                    fresh = isinstance(value, (ast.DictComp, ast.Dict)) or (isinstance(value, ast.Call) and norm(value.func) == "dict")
+                    from ..astutil import inline_pure_calls
+                    v2 = inline_pure_calls(ctx.res, init, value) if value is not None else value      # a helper that returns a new dict
+                    fresh = any(isinstance(v_, (ast.DictComp, ast.Dict)) or (isinstance(v_, ast.Call) and norm(v_.func) == "dict") for v_ in (value, v2))
                     rep.check(fresh, "C20.R2", "fresh:%s._settings" % ci.name, init.loc(n), "%s._settings is a new dict per instance" % ci.name,
                               bad="%s.__init__ binds _settings to %s, which is shared between instances" % (ci.name, norm(value)[:60]))
         # in-place mutation of class-level containers
